@@ -245,6 +245,30 @@ func planTree(s *fqrun.Session, name string) (*tree, error) {
 	return t, nil
 }
 
+// json format trees: what `fromjson` returns in fq (decode("json")): one scalar
+// decode value holding the whole JSON value.
+var jsonTexts = []string{`-5`, `-5.5`, `18446744073709551616`, `"str"`, `null`, `true`, `[-5,1.5,"a",[null]]`, `{"b":1,"a":-2.5,"c":[1,{"d":null}]}`, `{"k":{"j":[-1]}}`, `[]`, `{}`}
+
+func jsonTree(s *fqrun.Session, text string) (*tree, error) {
+	root, dv, err := decodeJQ(s, []byte(text), "json", map[string]any{})
+	if err != nil {
+		return nil, fmt.Errorf("json %s: %w", text, err)
+	}
+	if dv.Err != nil {
+		return nil, fmt.Errorf("json %s: decode error: %v", text, dv.Err)
+	}
+	// expected value: the JSON text read by encoding/json
+	dec := json.NewDecoder(strings.NewReader(text))
+	dec.UseNumber()
+	var want any
+	if err := dec.Decode(&want); err != nil {
+		return nil, err
+	}
+	t := &tree{name: "json:" + text, root: root, dv: dv, want: want}
+	t.seal()
+	return t, nil
+}
+
 // jsonAt navigates expected JSON by one path step.
 func jsonAt(j any, step any) (any, bool) {
 	switch s := step.(type) {
@@ -462,6 +486,7 @@ type engine struct {
 	inSet    map[*decode.Value]bool // nodes that are enumerated as values (by some shard)
 	seen     map[uint64]bool        // carriers already expanded in this shard
 	maxLevel int
+	samples   int
 	followAll bool // thorough: every parameter value of a first node is continued
 	only     string
 }
@@ -800,7 +825,7 @@ func (e *engine) judge(it *item, q qnode, par any, l, r res) (next []*item) {
 		e.r.Count("skipped_order_dependent_on_unsorted_struct", 1)
 		return nil
 	}
-	if it.badUTF && (q.bytes || q.argx()) {
+	if it.badUTF && (q.bytes || q.argx() || q.cmp && isContainer(it.rhs)) {
 		// documented difference 4: the bytes themselves differ
 		e.r.Count("skipped_byte_level_on_raw_bits_that_are_not_utf8", 1)
 		return nil
@@ -810,6 +835,10 @@ func (e *engine) judge(it *item, q qnode, par any, l, r res) (next []*item) {
 	chain := append(append([]string{}, it.chain...), text)
 	if len(l.vals) > 0 || len(r.vals) > 0 {
 		e.r.NontrivialHash(hashStr(strings.Join(chain, "|")) ^ it.rhsHash)
+		if it.level == 2 && e.samples < 3 && it.isDV == false && len(l.vals) == 1 && q.par == "" {
+			e.samples++
+			e.r.Sample(map[string]any{"value": it.origin.String(), "query": strings.Join(chain, " | "), "decode_value_gives": trunc(l.show(), 160), "tovalue_gives": trunc(r.show(), 160)})
+		}
 	}
 	mode := cmode{multiset: it.unsorted, fixUTF8: it.badUTF}
 	violate := func(sig, why string) {
@@ -855,6 +884,14 @@ func (e *engine) judge(it *item, q qnode, par any, l, r res) (next []*item) {
 	}
 	if !same {
 		sig, why := classify(it, q, par, l, r, lc, rc)
+		if len(lc) == len(rc) {
+			for i := range lorder {
+				if a, b := lc[lorder[i]], rc[rorder[i]]; a != b && len(a)+len(b) > 200 {
+					why += fmt.Sprintf(" (output %d: %s)", i, firstDiffShort(a, b))
+					break
+				}
+			}
+		}
 		violate(sig, why)
 		return nil
 	}
@@ -1026,6 +1063,13 @@ func run(r *core.Run) {
 	var trees []*tree
 	for _, name := range planNames {
 		t, err := planTree(s, name)
+		if err != nil {
+			panic("c08: " + err.Error())
+		}
+		trees = append(trees, t)
+	}
+	for _, text := range jsonTexts {
+		t, err := jsonTree(s, text)
 		if err != nil {
 			panic("c08: " + err.Error())
 		}
@@ -1257,6 +1301,8 @@ func replay(r *core.Run, raw json.RawMessage) bool {
 	var t *tree
 	if strings.HasPrefix(c.Tree, "plan:") {
 		t, err = planTree(s, c.Tree[5:])
+	} else if strings.HasPrefix(c.Tree, "json:") {
+		t, err = jsonTree(s, c.Tree[5:])
 	} else {
 		t, err = corpusTree(r, s, c.Tree)
 	}
